@@ -1,9 +1,12 @@
 (* C19 - The AST codec round-trips every statement and decoding is total.
    This file holds only the property theorems (closed by [exact]) and their
-   Print Assumptions; the model is Model/Codec.v, the proofs are in Proofs/Codec*.v. *)
-From Coq Require Import List NArith ZArith.
-From Falco Require Import Base.Res Base.Bytes Base.Utf8 Gen.CodecFrames Model.CodecAst Model.Codec
-  Proofs.CodecTotal Proofs.CodecRT1 Proofs.CodecRoundtrip Proofs.CodecSize.
+   Print Assumptions; the model is Model/Codec.v (+ Model/CodecWf.v, Model/CodecPlugin.v),
+   the proofs are in Proofs/Codec*.v. *)
+From Coq Require Import List NArith ZArith String.
+From Falco Require Import Base.Res Base.Bytes Base.Utf8 Gen.CodecFrames Gen.CodecPlugin
+  Model.CodecAst Model.Codec Model.CodecWf Model.CodecPlugin
+  Proofs.CodecTotal Proofs.CodecRT1 Proofs.CodecRoundtrip Proofs.CodecSize
+  Proofs.CodecWfb Proofs.CodecEncTotal Proofs.CodecPluginProofs.
 Import ListNotations.
 
 (* Round trip: for every list of well-formed statements (any kind, any nesting depth, any
@@ -16,12 +19,67 @@ Theorem C19_decode_encode :
   forall ss bs, wf_block ss -> encode ss = OK bs -> decode bs = OK ss.
 Proof. exact decode_encode. Qed.
 
+(* [wf_block] is decidable by the extracted checker [wfb_block], which the check runs on every
+   AST the real parser produced: the hypothesis above is tied to the parser on every run. *)
+Theorem C19_wfb_sound : forall ss, wfb_block ss = true -> wf_block ss.
+Proof. exact wfb_sound. Qed.
+Theorem C19_wfb_complete : forall ss, wf_block ss -> wfb_block ss = true.
+Proof. exact wfb_complete. Qed.
+
+Theorem C19_decode_encode_checked :
+  forall ss bs, wfb_block ss = true -> encode ss = OK bs -> decode bs = OK ss.
+Proof. exact (fun ss bs H => decode_encode ss bs (wfb_sound ss H)). Qed.
+
+(* The encoder side is not vacuous: every well-formed list encodes (no error, no nil-frame crash). *)
+Theorem C19_encode_total : forall ss, wf_block ss -> exists bs, encode ss = OK bs.
+Proof. exact encode_total. Qed.
+
+Theorem C19_encode_injective :
+  forall a b, wf_block a -> wf_block b -> encode a = encode b -> a = b.
+Proof. exact encode_injective. Qed.
+
 (* Totality and crash-freedom of the decoder on EVERY byte string. *)
 Theorem C19_decode_total : forall bs : list byte, decode bs <> OutOfFuel.
 Proof. exact (fun bs => proj1 (decode_total_no_crash bs)). Qed.
 
 Theorem C19_decode_no_crash : forall bs : list byte, decode bs <> Crash.
 Proof. exact (fun bs => proj2 (decode_total_no_crash bs)). Qed.
+
+(* The plugin path (linter/custom_linter.go -> plugin.ReadLinterRequest[T]).
+   Encoder.Encode(stmt) is Encodes of the singleton list. *)
+Theorem C19_encode1_is_encodes : forall s, encode1 s = encode [s].
+Proof. exact encode1_encodes. Qed.
+
+(* What customLint sends for a well-formed statement is read back as that statement by the plugin
+   instantiated at its kind, and rejected with a type error naming its kind by every other one. *)
+Theorem C19_plugin_roundtrip :
+  forall s, wf_stmt s ->
+  exists bs, encode1 s = OK bs
+    /\ read_request (kind_of s) bs = ROk s
+    /\ forall t, t <> kind_of s -> read_request t bs = RType (kind_of s).
+Proof. exact plugin_roundtrip. Qed.
+
+(* ReadLinterRequest on EVERY byte string: a request or an error, never a crash or a hang; a
+   returned request has the requested type and is the first decoded statement. *)
+Theorem C19_plugin_total :
+  forall t (bs : list byte), read_request t bs <> RCrash /\ read_request t bs <> RHang.
+Proof. exact plugin_total. Qed.
+Theorem C19_plugin_typed :
+  forall t bs s, read_request t bs = ROk s -> kind_of s = t /\ exists more, decode bs = OK (s :: more).
+Proof. exact plugin_typed. Qed.
+
+(* T tie over the regenerated tables Gen/CodecPlugin.v (finite lists, named in the statement):
+   the LintStatement union of plugin/linter.go, the Statement() receivers of package ast, the
+   type switches of Linter.lint and Encoder.encode. *)
+Theorem C19_plugin_kinds :
+  (forall n, In n lint_switch_types -> In n ast_statement_types -> In n lint_statement_types)
+  /\ (forall n, In n lint_statement_types ->
+        In n encoder_switch_types /\ exists k, In k all_kinds /\ kind_name k = n /\ lintable k = true)
+  /\ (forall k, In k all_kinds -> In (kind_name k) encoder_switch_types)
+  /\ (forall n, In n encoder_switch_types -> exists k, In k all_kinds /\ kind_name k = n)
+  /\ NoDup (map kind_name all_kinds)
+  /\ (forall k, In k all_kinds -> lintable k = false -> In k not_lintable_kinds).
+Proof. exact plugin_kinds. Qed.
 
 (* T tie: the frame numbering regenerated from ast/codec/codec.go is injective and keeps the
    two markers the wire format documents (END = 1, FIN = 2). *)
@@ -34,7 +92,17 @@ Theorem C19_leaf_64k_refuted :
 Proof. exact leaf_64k_refuted. Qed.
 
 Print Assumptions C19_decode_encode.
+Print Assumptions C19_wfb_sound.
+Print Assumptions C19_wfb_complete.
+Print Assumptions C19_decode_encode_checked.
+Print Assumptions C19_encode_total.
+Print Assumptions C19_encode_injective.
 Print Assumptions C19_decode_total.
 Print Assumptions C19_decode_no_crash.
+Print Assumptions C19_encode1_is_encodes.
+Print Assumptions C19_plugin_roundtrip.
+Print Assumptions C19_plugin_total.
+Print Assumptions C19_plugin_typed.
+Print Assumptions C19_plugin_kinds.
 Print Assumptions C19_frame_numbering.
 Print Assumptions C19_leaf_64k_refuted.
